@@ -30,8 +30,19 @@ func builderField(w *World, searchT types.Type, with string) string {
 	name := ""
 	allInstrs(fn, func(in ssa.Instruction) {
 		if st, ok := in.(*ssa.Store); ok {
-			if fa, ok := st.Addr.(*ssa.FieldAddr); ok && fa.X == ssa.Value(fn.Params[0]) {
-				name = fieldName(fa.X.Type(), fa.Field)
+			// the stored field, possibly promoted through embedded structs: P0.f or P0.embedded.f
+			var path []string
+			var v ssa.Value = st.Addr
+			for {
+				fa, ok := v.(*ssa.FieldAddr)
+				if !ok {
+					break
+				}
+				path = append([]string{fieldName(fa.X.Type(), fa.Field)}, path...)
+				v = fa.X
+			}
+			if len(path) > 0 && v == ssa.Value(fn.Params[0]) {
+				name = strings.Join(path, ".")
 			}
 		}
 	})
